@@ -102,6 +102,48 @@ func c41WireCert(nonce, pk []byte, serial uint64, typ uint32, keyID, principals 
 // no state invariant is assumed)
 // ---------------------------------------------------------------------------------------------
 
+// c41KnownNestedEmpty is the label of the one known deviation (known_findings.json, C41): a tuple
+// whose data field is the nested EMPTY string (00000004 00000000) is accepted by parseTuples and
+// re-marshalled with an empty data field (00000000). Every other difference between received and
+// re-marshalled bytes is asserted under the general labels.
+const c41KnownNestedEmpty = "nested empty option value (00000004 00000000): re-marshalled form has the length of the received form"
+
+// c41CanonTuples walks a tuple blob independently of parseTuples and returns it with every data
+// field that is exactly the nested empty string replaced by the empty data field, plus the
+// number of such replacements. A malformed blob is returned unchanged.
+func c41CanonTuples(in []byte) (canon []byte, nested int) {
+	rd := func(b []byte) (s, rest []byte, ok bool) {
+		if len(b) < 4 {
+			return nil, nil, false
+		}
+		n := int(b[0])<<24 | int(b[1])<<16 | int(b[2])<<8 | int(b[3])
+		if n > len(b)-4 {
+			return nil, nil, false
+		}
+		return b[4 : 4+n], b[4+n:], true
+	}
+	orig := in
+	for len(in) > 0 {
+		name, rest, ok := rd(in)
+		if !ok {
+			return orig, 0
+		}
+		data, rest2, ok := rd(rest)
+		if !ok {
+			return orig, 0
+		}
+		canon = append(canon, c41Str(name)...)
+		if len(data) == 4 && data[0] == 0 && data[1] == 0 && data[2] == 0 && data[3] == 0 {
+			canon = append(canon, 0, 0, 0, 0)
+			nested++
+		} else {
+			canon = append(canon, c41Str(data)...)
+		}
+		in = rest2
+	}
+	return canon, nested
+}
+
 func c41TuplesWire(maxLen int) {
 	n := verifrt.Choose(0, maxLen)
 	in := verifrt.Bytes(n)
@@ -115,7 +157,11 @@ func c41TuplesWire(maxLen int) {
 	}
 	verifrt.Reach("accepted")
 	out := marshalTuples(m)
-	c41AssertEqBytes(out, in, "", "")
+	want, nested := c41CanonTuples(in)
+	c41AssertEqBytes(out, want, "", "")
+	if nested > 0 {
+		verifrt.Assert(len(out) == len(in), c41KnownNestedEmpty)
+	}
 }
 
 // Verif_C41_TuplesWire: for EVERY byte string of length 0..13 (all bits symbolic) that
@@ -225,6 +271,15 @@ func c41WireRoundTrip(maxSmall, maxOpt, maxExt, maxPrinc int) {
 	}
 	verifrt.Reach("accepted")
 	out := cert.Marshal()
+	// Known deviation: nested empty values are re-encoded as empty data fields. Everything below is
+	// asserted against the received bytes with exactly that substitution applied (identical to
+	// the received bytes when no such value occurs); the known label comes last.
+	received := b
+	cOpts, nO := c41CanonTuples(opts)
+	cExts, nE := c41CanonTuples(exts)
+	if nO+nE > 0 {
+		b, signedLen = c41WireCert(nonce, pk, serial, typ, keyID, princ, after, before, cOpts, cExts, reserved, caPK, sig)
+	}
 	c41AssertEqBytes(out, b, "", "")
 
 	// What CheckCert hands to the CA key's Verify must be the signed prefix of the received bytes.
@@ -267,6 +322,9 @@ func c41WireRoundTrip(maxSmall, maxOpt, maxExt, maxPrinc int) {
 			verifrt.Assert(eq, "bytes: CheckCert verifies the CA signature over the received signed prefix")
 		}
 		verifrt.Assert(rec.sig != nil && rec.sig.Format == KeyAlgoED25519 && len(rec.sig.Blob) == 2 && rec.sig.Blob[0] == sig[0] && rec.sig.Blob[1] == sig[1], "CheckCert verifies the received signature blob")
+	}
+	if nO+nE > 0 {
+		verifrt.Assert(len(out) == len(received), c41KnownNestedEmpty)
 	}
 }
 
@@ -547,6 +605,14 @@ func c41Policy(fullTime bool, maxP, maxO, maxS int) {
 		verifrt.Assert(rec.sig == cert.Signature, "accepted => the certificate's signature is the one checked")
 	} else {
 		verifrt.Reach("reject")
+	}
+	if cert.ValidBefore >= 1<<63 && cert.ValidBefore != CertTimeInfinity {
+		// Known deviation (known_findings.json): CheckCert converts ValidBefore to int64 and treats
+		// every value in [2^63, 2^64-2] as expired. Soundness is still demanded under the general
+		// label; the completeness direction has its own label so that only it can be matched.
+		verifrt.Assert(err != nil || expect, "CheckCert accepts iff all rules hold")
+		verifrt.Assert(err == nil || !expect, "ValidBefore in [2^63, 2^64-2]: a certificate inside its validity window is accepted")
+		return
 	}
 	verifrt.Assert((err == nil) == expect, "CheckCert accepts iff all rules hold")
 }
